@@ -97,6 +97,7 @@ pub struct CaseOut {
     pub fwd_parents: usize,
     pub lower_panics: usize,
     pub n_lower_diags: usize,
+    pub fuel_zero: bool,             // the parser ran out of fuel on this input ("parser did not consume input" reported)
 }
 
 /// direct oracles on the token stream
@@ -213,6 +214,7 @@ pub fn run_case(input: &str, with_tree: bool) -> CaseOut {
     let green = res.green_node.clone();
     let diags = diag_list(res.diagnostics());
     out.n_diags = diags.len();
+    out.fuel_zero = diags.iter().any(|(m, _)| m.contains("did not consume input"));
     // tree text == input
     let root = parser::syntax::MySyntaxNode::new_root(green.clone());
     let text = root.text().to_string();
@@ -608,6 +610,210 @@ fn mutate(src: &str, rng: &mut Rng) -> String {
     cs.into_iter().collect()
 }
 
+// ------------------------------------------------------------------ the fuel-limit catalogue
+
+/// The number of consecutive looks (`peek`/`nth`) the REAL parser answers before it starts to say `eof`
+/// on an input that is not at its end — measured, so the catalogue follows the constant in `Parser::new`.
+/// (capped: a parser without a limiter gives the cap)
+pub fn measured_fuel() -> usize {
+    let toks = lexer::lex("x y");
+    let mut p = parser::parser::Parser::new(Path::new("c12.gom"), toks);
+    let mut n = 0usize;
+    while n < 4096 && p.peek() != lexer::TokenKind::Eof {
+        n += 1;
+    }
+    n
+}
+
+/// Functions of the parser that look ahead by a *computed* distance (`p.nth(<expr>)`), i.e. whose number of
+/// looks grows with the input; `tools/extract.py` regenerates the list from the source and the check
+/// compares (a new unbounded lookahead without an entry here is a broken tie).
+pub const LOOKAHEAD_FNS_COVERED: &[&str] = &["impl_has_trait"];
+
+/// Every way the parser can look many times without consuming a token, driven to and past the fuel limit F:
+///  * `look-…`   lookahead-only scans (the path after `impl`, 2 looks per segment), every position an `impl` can be in;
+///  * `wind-…`   stacked grammar frames that each look once or more while they unwind (prefix operators, closures,
+///               else-if chains, parens, blocks, calls, types, patterns, …), closed, cut off, and in front of a `{`
+///               that the next grammar function re-checks;
+///  * `flat-…`   loops that do consume one token per round, 2F+1 rounds (must never come near the limit);
+///  * `after-…`  each item kind directly after a construct that leaves the parser out of fuel.
+/// Sizes: a contiguous window around F/4, F/3, F/2 and F (a frame spends 1..4 looks, so some size of every
+/// shape meets the limit exactly — the state in which a guard still sees the token and the next look does not),
+/// 2F+1, and 3 as a control. `tree` = also through the Lean tree tie.
+pub fn fuel_limit_inputs(thorough: bool) -> Vec<(String, String, bool)> {
+    let f = measured_fuel().clamp(8, 4096);
+    let mut sizes: Vec<usize> = vec![3];
+    let w: usize = if thorough { 6 } else { 2 };
+    for c in [f / 4, f / 3, f / 2, f] {
+        for d in c.saturating_sub(w)..=c + w {
+            sizes.push(d.max(1));
+        }
+    }
+    sizes.push(2 * f + 1);
+    sizes.sort();
+    sizes.dedup();
+    let tied: Vec<usize> = vec![3, f / 2 + 1, f + 1];
+    let rep = |s: &str, n: usize| s.repeat(n);
+    let path = |d: usize| vec!["Seg"; d].join("::");
+    let mut v: Vec<(String, String, bool)> = Vec::new();
+    const BEFORE: &str = "fn before() -> unit { () }\n";
+    const AFTER: &str = "\nfn after(x: int32) -> int32 { x + 1 }\n";
+    // (name, construct at item level)
+    type Shape = (&'static str, Box<dyn Fn(usize) -> String>);
+    let item = |name: &'static str, g: Box<dyn Fn(usize) -> String>| -> Shape { (name, g) };
+    // a construct in expression position of a function body
+    let in_fn = |e: String| format!("fn f(n: int32) -> int32 {{ {} }}", e);
+    let in_let = |e: String| format!("fn f(n: int32) -> unit {{ let x = {}; () }}", e);
+    let in_ty = |t: String| format!("fn f(x: {}) -> unit {{ () }}", t);
+    let in_pat = |q: String| format!("fn f(n: int32) -> int32 {{ match n {{ {} => 1, _ => 0 }} }}", q);
+    let shapes: Vec<Shape> = vec![
+        // ---- lookahead-only scans
+        item("look-impl-trait", Box::new(move |d| format!("impl {} for int32 {{ fn m(self: int32) -> int32 {{ 1 }} }}", path(d)))),
+        item("look-impl-inherent", Box::new(move |d| format!("impl {} {{ fn m(self: int32) -> int32 {{ 1 }} }}", path(d)))),
+        item("look-impl-rooted", Box::new(move |d| format!("impl ::{} for int32 {{ }}", path(d)))),
+        item("look-impl-generic", Box::new(move |d| format!("impl[T] {} for T {{ }}", path(d)))),
+        item("look-impl-attr", Box::new(move |d| format!("#[derive(ToString)]\nimpl {} for int32 {{ }}", path(d)))),
+        item("look-impl-spaced", Box::new(move |d| format!("impl {} for int32 {{ }}", vec!["Seg"; d].join(" ::\n  // c\n  ")))),
+        item("look-impl-bad-end", Box::new(move |d| format!("impl {}::1 for int32 {{ }}", path(d)))),
+        item("look-impl-no-body", Box::new(move |d| format!("impl {}", path(d)))),
+        item("look-impl-dangling", Box::new(move |d| format!("impl {}::", path(d)))),
+        item("look-impl-tapp", Box::new(move |d| format!("impl {}[int32] {{ }}", path(d)))),
+        // ---- unwinding frames: expressions
+        item("wind-not", Box::new(move |d| in_fn(format!("{}true", rep("!", d))))),
+        item("wind-neg", Box::new(move |d| in_fn(format!("{}1", rep("- ", d))))),
+        item("wind-neg-not", Box::new(move |d| in_fn(format!("{}1", rep("-!", d))))),
+        item("wind-closure", Box::new(move |d| in_let(format!("{}1", rep("|a| ", d))))),
+        item("wind-closure-noparam", Box::new(move |d| in_let(format!("{}1", rep("|| ", d))))),
+        item("wind-closure-typed", Box::new(move |d| in_let(format!("{}1", rep("|a: int32, b| ", d))))),
+        item("wind-else-if", Box::new(move |d| in_fn(format!("{}{{ 0 }}", rep("if n == 1 { 1 } else ", d))))),
+        item("wind-else-if-braceless", Box::new(move |d| in_fn(format!("{}0", rep("if n 1 else ", d))))),
+        item("wind-if-then", Box::new(move |d| in_fn(format!("{}1{}", rep("if n { ", d), rep(" } else { 0 }", d))))),
+        item("wind-if-cond", Box::new(move |d| in_fn(format!("{}true{}", rep("if ", d), rep(" { 1 } else { 0 }", d))))),
+        item("wind-paren", Box::new(move |d| in_let(format!("{}1{}", rep("(", d), rep(")", d))))),
+        item("wind-tuple", Box::new(move |d| in_let(format!("{}1{}", rep("(", d), rep(", true)", d))))),
+        item("wind-block", Box::new(move |d| in_let(format!("{}1{}", rep("{ ", d), rep(" }", d))))),
+        item("wind-array", Box::new(move |d| in_let(format!("{}1{}", rep("[", d), rep("]", d))))),
+        item("wind-call", Box::new(move |d| in_let(format!("{}1{}", rep("g(", d), rep(")", d))))),
+        item("wind-binary-right", Box::new(move |d| in_let(format!("{}1{}", rep("1 + (", d), rep(")", d))))),
+        item("wind-binary-prefix", Box::new(move |d| in_let(format!("{}1", rep("1 + -", d))))),
+        item("wind-while", Box::new(move |d| in_fn(format!("{}(){}; 0", rep("while n { ", d), rep(" }", d))))),
+        item("wind-match", Box::new(move |d| in_fn(format!("{}1{}", rep("match n { 0 => 0, _ => ", d), rep(" }", d))))),
+        item("wind-match-scrutinee", Box::new(move |d| in_fn(format!("{}n{}", rep("match ", d), rep(" { _ => 1 }", d))))),
+        item("wind-go", Box::new(move |d| in_fn(format!("{}g(); 0", rep("go ", d))))),
+        item("wind-struct-lit", Box::new(move |d| in_let(format!("{}1{}", rep("S { a: ", d), rep(" }", d))))),
+        // an unwinding stack directly in front of a `{` / `(` that the next grammar function re-checks
+        item("wind-not-then-block", Box::new(move |d| in_fn(format!("if {}true {{ 1 }} else {{ 0 }}", rep("!", d))))),
+        item("wind-not-then-while", Box::new(move |d| in_fn(format!("while {}true {{ () }}; 0", rep("!", d))))),
+        item("wind-not-then-match", Box::new(move |d| in_fn(format!("match {}true {{ true => 1, _ => 0 }}", rep("!", d))))),
+        item("wind-not-then-call", Box::new(move |d| in_fn(format!("{}g(1)(2)", rep("!", d))))),
+        item("wind-closure-then-block", Box::new(move |d| in_let(format!("{}{{ 1 }}", rep("|a| ", d))))),
+        item("wind-paren-then-call", Box::new(move |d| in_let(format!("{}g{}(1)", rep("(", d), rep(")", d))))),
+        // ---- unwinding frames: types
+        item("wind-ty-vec", Box::new(move |d| in_ty(format!("{}int32{}", rep("Vec[", d), rep("]", d))))),
+        item("wind-ty-tuple", Box::new(move |d| in_ty(format!("{}int32{}", rep("(", d), rep(", bool)", d))))),
+        item("wind-ty-array", Box::new(move |d| in_ty(format!("{}int32{}", rep("[", d), rep("; 1]", d))))),
+        item("wind-ty-arrow", Box::new(move |d| in_ty(format!("{}int32", rep("int32 -> ", d))))),
+        item("wind-ty-fn", Box::new(move |d| in_ty(format!("{}int32{}", rep("(", d), rep(") -> int32", d))))),
+        item("wind-ty-ret-then-block", Box::new(move |d| format!("fn f() -> {}int32 {{ 1 }}", rep("int32 -> ", d)))),
+        item("wind-ty-impl-then-block", Box::new(move |d| format!("impl {}int32{} {{ fn m(self: int32) -> int32 {{ 1 }} }}", rep("Vec[", d), rep("]", d)))),
+        // ---- unwinding frames: patterns
+        item("wind-pat-tuple", Box::new(move |d| in_pat(format!("{}y{}", rep("(", d), rep(",)", d))))),
+        item("wind-pat-constr", Box::new(move |d| in_pat(format!("{}y{}", rep("A(", d), rep(")", d))))),
+        item("wind-pat-struct", Box::new(move |d| in_pat(format!("{}y{}", rep("S { a: ", d), rep(" }", d))))),
+        item("wind-pat-path", Box::new(move |d| in_pat(format!("{}(y)", path(d))))),
+        // ---- loops that consume a token per round
+        item("flat-params", Box::new(move |d| format!("fn f({}) -> unit {{ () }}", rep("a: int32, ", d)))),
+        item("flat-args", Box::new(move |d| in_let(format!("g({})", rep("1, ", d))))),
+        item("flat-fields", Box::new(move |d| format!("struct S {{ {} }}", rep("a: int32, ", d)))),
+        item("flat-variants", Box::new(move |d| format!("enum E {{ {} }}", rep("A(int32), ", d)))),
+        item("flat-stmts", Box::new(move |d| in_fn(format!("{}0", rep("g(); ", d))))),
+        item("flat-lets", Box::new(move |d| in_fn(format!("{}0", rep("let a = 1; ", d))))),
+        item("flat-imports", Box::new(move |d| rep("import a\n", d))),
+        item("flat-attrs", Box::new(move |d| format!("{}fn g() -> unit {{ () }}", rep("#[a]\n", d)))),
+        item("flat-attr-nest", Box::new(move |d| format!("#[a{}{}]\nfn g() -> unit {{ () }}", rep("[", d), rep("]", d)))),
+        item("flat-bounds", Box::new(move |d| format!("fn g[T: A{}](x: T) -> unit {{ () }}", rep(" + A", d)))),
+        item("flat-generics", Box::new(move |d| format!("fn g[{}](x: int32) -> unit {{ () }}", rep("T, ", d)))),
+        item("flat-arms", Box::new(move |d| in_fn(format!("match n {{ {}_ => 0 }}", rep("1 => 1, ", d))))),
+        item("flat-tuple", Box::new(move |d| in_let(format!("({}1)", rep("1, ", d))))),
+        item("flat-array", Box::new(move |d| in_let(format!("[{}1]", rep("1, ", d))))),
+        item("flat-path-expr", Box::new(move |d| in_let(path(d)))),
+        item("flat-path-type", Box::new(move |d| in_ty(path(d)))),
+        item("flat-plus", Box::new(move |d| in_let(format!("1{}", rep(" + 1", d))))),
+        item("flat-dots", Box::new(move |d| in_let(format!("a{}", rep(".b", d))))),
+        item("flat-calls", Box::new(move |d| in_let(format!("g{}", rep("(0)", d))))),
+        item("flat-methods", Box::new(move |d| in_let(format!("a{}", rep(".m()", d))))),
+        item("flat-error-tokens", Box::new(move |d| rep("$ ", d))),
+        item("flat-closers", Box::new(move |d| rep("} ", d))),
+        item("flat-closers-in-block", Box::new(move |d| in_fn(format!("{}0", rep(") ", d))))),
+        item("flat-semis", Box::new(move |d| in_fn(format!("{}0", rep("; ", d))))),
+        item("flat-elses", Box::new(move |d| in_fn(format!("{}0", rep("else ", d))))),
+        item("flat-colons", Box::new(move |d| rep(":: ", d))),
+        item("flat-commas-in-args", Box::new(move |d| in_let(format!("g({})", rep(", ", d))))),
+        item("flat-items", Box::new(move |d| rep("fn g() -> unit { () }\n", d))),
+        item("flat-trait-methods", Box::new(move |d| format!("trait T {{ {} }}", rep("fn m(Self) -> int32; ", d)))),
+        item("flat-impl-methods", Box::new(move |d| format!("impl T for int32 {{ {} }}", rep("fn m(self: int32) -> int32 { 1 } ", d)))),
+        item("flat-type-args", Box::new(move |d| in_ty(format!("M[{}int32]", rep("int32, ", d))))),
+        item("flat-closure-params", Box::new(move |d| in_let(format!("|{}a| 1", rep("a, ", d))))),
+        item("flat-pat-fields", Box::new(move |d| in_pat(format!("S {{ {} }}", rep("a: _, ", d))))),
+    ];
+    for (name, g) in &shapes {
+        let flat = name.starts_with("flat-");
+        for &d in &sizes {
+            if flat && d != 3 && d != f + 1 && d != 2 * f + 1 {
+                continue;
+            }
+            let tree = tied.contains(&d);
+            let body = g(d);
+            v.push((format!("{}@{}", name, d), format!("{}{}{}", BEFORE, body, AFTER), tree));
+            if !flat {
+                // cut off inside the construct: the frames unwind at the real end of input
+                let cut: String = {
+                    let toks = lexer::lex(&body);
+                    let keep = toks.len() - toks.len() / 3;
+                    toks.iter().take(keep).map(|t| t.text).collect()
+                };
+                v.push((format!("{}-cut@{}", name, d), format!("{}{}", BEFORE, cut), tree));
+                // closers removed, the rest of the file follows
+                if name.starts_with("wind-") {
+                    let open: String = body.chars().filter(|c| !matches!(c, ')' | ']' | '}')).collect();
+                    v.push((format!("{}-unclosed@{}", name, d), format!("{}{}{}", BEFORE, open, AFTER), false));
+                }
+            }
+        }
+    }
+    // every kind of item (and non-item) directly after a construct that leaves the parser out of fuel
+    let followers: &[(&str, &str)] = &[
+        ("fn", "fn g() -> unit { () }"),
+        ("struct", "struct S { a: int32 }"),
+        ("enum", "enum E { A, B(int32) }"),
+        ("trait", "trait T { fn m(Self) -> int32; }"),
+        ("impl", "impl T for int32 { fn m(self: int32) -> int32 { 1 } }"),
+        ("extern", "extern \"go\" \"fmt\" fn g() -> unit"),
+        ("attr-fn", "#[a]\nfn g() -> unit { () }"),
+        ("let", "let x = 1;"),
+        ("expr", "1 + g(2)"),
+        ("package", "package P"),
+        ("import", "import P"),
+        ("closers", "} ) ]"),
+        ("error-token", "$"),
+        ("comment", "// only a comment\n"),
+        ("nothing", ""),
+        ("blank", "\n\n  "),
+    ];
+    for (sname, stuck) in [
+        ("look", format!("impl {} for int32 {{ }}", vec!["Seg"; f / 2 + 2].join("::"))),
+        ("look-eof", format!("impl {}", vec!["Seg"; f / 2 + 2].join("::"))),
+        ("wind", format!("fn f() -> bool {{ {}true }}", "!".repeat(f + 2))),
+        ("wind-unclosed", format!("fn f() -> unit {{ let x = {}1", "(".repeat(f + 2))),
+    ] {
+        for (fname, fo) in followers {
+            v.push((format!("after-{}-{}", sname, fname), format!("{}\n{}\n", stuck, fo), true));
+            v.push((format!("after-{}-{}-twice", sname, fname), format!("{}\n{}\n{}\n{}\n", stuck, fo, stuck, fo), false));
+        }
+    }
+    v
+}
+
 pub fn build_jobs(args: &util::Args) -> Vec<Job> {
     let thorough = args.tier == "thorough";
     let mut jobs = Vec::new();
@@ -642,6 +848,12 @@ pub fn build_jobs(args: &util::Args) -> Vec<Job> {
     let corpus = corpus_files();
     for (i, (_, t)) in corpus.iter().enumerate() {
         jobs.push(Job { id: format!("c{}", i), stream: "corpus", text: t.clone(), tree: true });
+    }
+    // the fuel-limit catalogue (deterministic)
+    for (name, text, tree) in fuel_limit_inputs(thorough) {
+        if seen.insert(text.clone()) {
+            jobs.push(Job { id: format!("fl:{}", name), stream: "fuel-limit", text, tree });
+        }
     }
     let mut rng = Rng::new(args.seed ^ 0xC12);
     // special first / last / inner characters: every short text (all strings <= 2 over the full alphabet,
@@ -1001,6 +1213,11 @@ pub fn main(args: &util::Args) {
     }
     let results = results.lock().unwrap();
     let mut stats: std::collections::BTreeMap<String, u64> = Default::default();
+    let thorough = args.tier == "thorough";
+    for (name, _, _) in fuel_limit_inputs(thorough) {
+        *stats.entry(format!("fuel_limit_class:{}", name.split('-').next().unwrap_or(""))).or_default() += 1;
+    }
+    stats.insert("measured_fuel".into(), measured_fuel() as u64);
     let mut kinds = 0u128;
     for (j, r) in results.iter().enumerate() {
         let job = &jobs[j];
@@ -1021,6 +1238,15 @@ pub fn main(args: &util::Args) {
         }
         if r.n_diags > 0 {
             *stats.entry("inputs_with_diagnostic".into()).or_default() += 1;
+        }
+        if r.fuel_zero {
+            *stats.entry("inputs_reaching_fuel_zero".into()).or_default() += 1;
+            *stats.entry(format!("fuel_zero:{}", job.stream)).or_default() += 1;
+            if job.stream == "fuel-limit" {
+                // by class of the catalogue (look / wind / flat / after)
+                let class = job.id.trim_start_matches("fl:").split('-').next().unwrap_or("").to_string();
+                *stats.entry(format!("fuel_zero_class:{}", class)).or_default() += 1;
+            }
         }
         if r.kinds & (1u128 << 79) != 0 {
             *stats.entry("inputs_with_multiline_str".into()).or_default() += 1;
@@ -1055,6 +1281,7 @@ pub fn main(args: &util::Args) {
         let _ = writeln!(st, "{}\t{}", k, v);
     }
     let _ = writeln!(st, "kinds_bitset\t{:x}", kinds);
+    let _ = writeln!(st, "lookahead_fns_covered\t{}", LOOKAHEAD_FNS_COVERED.join(","));
     std::fs::write(args.out.join("c12.cases.tsv"), cases).expect("write cases");
     std::fs::write(args.out.join("c12.real.tsv"), real).expect("write real");
     std::fs::write(args.out.join("c12.oracle.tsv"), oracle).expect("write oracle");
